@@ -377,6 +377,92 @@ fn gen_case(rng: &mut StdRng, len: usize) -> Case {
     Case { start, shared: rng.gen_bool(0.2), ops }
 }
 
+/// An underlying clock that advances on every read, as every real clock does: (next value, tick).
+#[derive(Clone)]
+struct Ticking(Arc<Mutex<(u128, u128, u128)>>); // (next, tick, last returned)
+
+impl Clock for Ticking {
+    type Error = ();
+    fn now(&self) -> Time {
+        let mut g = self.0.lock().unwrap();
+        let v = g.0;
+        g.0 += g.1;
+        g.2 = v;
+        time_from_units(v)
+    }
+    fn step_clock(&mut self, _o: Duration) -> Result<Time, ()> {
+        Err(())
+    }
+    fn set_frequency(&mut self, _p: f64) -> Result<Time, ()> {
+        Err(())
+    }
+    fn set_properties(&mut self, _t: &TimePropertiesDS) -> Result<(), ()> {
+        Ok(())
+    }
+}
+
+/// Continuity and returned times over an underlying clock that moves between any two reads: what the
+/// overlay gains between two of its own readings is what the underlying clock gained between the two
+/// reads that produced them (plus an applied step, plus the frequency correction on those few
+/// microseconds), however many times an adjustment call looks at the underlying clock in between.
+fn ticking_overlay(rep: &mut Report, seed: u64) {
+    let replay = json!({"ticking_overlay_seed": seed});
+    let mut rng = StdRng::seed_from_u64(seed);
+    let tick: u128 = [1_000u128 << 32, 100u128 << 32, 37_000u128 << 32][rng.gen_range(0..3)];
+    let inner = Arc::new(Mutex::new((1_700_000_000u128 * SEC, tick, 0u128)));
+    let r = guarded(|| {
+        let mut ov = OverlayClock::new(Ticking(inner.clone()));
+        let mut problems: Vec<String> = vec![];
+        let mut ppm_now = 0.0f64;
+        for k in 0..rng.gen_range(3..12) {
+            // let some time pass
+            inner.lock().unwrap().0 += rng.gen_range(0..(5 * SEC));
+            let r0 = time_units(ov.now()) as i128;
+            let u0 = inner.lock().unwrap().2 as i128;
+            let (what, ret, step) = if rng.gen_bool(0.6) {
+                let ppm = [400.0, -250.0, 12.5, 0.0, 499.0][rng.gen_range(0..5)];
+                let ret = ov.set_frequency(ppm);
+                let old = ppm_now;
+                ppm_now = ppm;
+                (format!("set_frequency({ppm}) after {old} ppm"), ret, 0i128)
+            } else {
+                let d: i128 = [(3 * SEC) as i128, -((2 * SEC) as i128), 1 << 32, 0][rng.gen_range(0..4)];
+                (format!("step_clock({} ns)", d >> 32), ov.step_clock(dur_from_units(d)), d)
+            };
+            let r1 = time_units(ov.now()) as i128;
+            let u1 = inner.lock().unwrap().2 as i128;
+            let under = u1 - u0;
+            // frequency correction on `under` (a few ticks) at <= 500 ppm, plus rounding
+            let tol = under / 1000 + (4 << 32);
+            if ((r1 - r0) - under - step).abs() > tol {
+                problems.push(format!(
+                    "op {k} {what}: the overlay reading went from {r0} to {r1} ({} ns) while the underlying clock went {} ns between the two reads (+ step {} ns): {} ns are missing",
+                    (r1 - r0) >> 32,
+                    under >> 32,
+                    step >> 32,
+                    (under + step - (r1 - r0)) >> 32
+                ));
+            }
+            if let Ok(t) = ret {
+                let t = time_units(t) as i128;
+                if t < r0 + step.min(0) - tol || t > r1 + step.max(0).min(0) + tol {
+                    problems.push(format!("op {k} {what}: returned time {t} is outside of the readings taken right before ({r0}) and after ({r1}) the call"));
+                }
+            }
+        }
+        problems
+    });
+    match r {
+        Ok(problems) => {
+            rep.ev("ticking_underlying_clock_ops");
+            for p in problems.iter().take(2) {
+                rep.violation("C18|ticking-underlying|continuity", p, replay.clone());
+            }
+        }
+        Err(p) => rep.violation(&format!("C18|panic|{}|{}", p.site(), p.class()), &format!("overlay over a ticking clock panicked: {}", p.describe()), replay),
+    }
+}
+
 /// The overlay as the daemon uses it with `virtual-system-clock`: `SharedClock<OverlayClock<LinuxClock>>`
 /// over the real (read-only) CLOCK_TAI. Converting a packet timestamp of the underlying clock must
 /// agree with the overlay's own mapping of that instant, through every wrapper.
@@ -428,7 +514,7 @@ fn linux_overlay(rep: &mut Report, seed: u64) {
 
 pub fn run(rep: &mut Report, tier: &str, seed: u64, shard: (u32, u32), replay: Option<&str>) {
     rep.rule = "operation sequences over {set_frequency, step_clock, advance underlying, probe}; all kind pairs/triples with lattice values enumerated, then seeded random sequences of length <= 50; distinct = distinct sequences; non-trivial = contains at least one adjustment and one advance".into();
-    rep.require(&["advance", "set_frequency", "step_clock", "probe", "probe_past", "linux_overlay_conversions"]);
+    rep.require(&["advance", "set_frequency", "step_clock", "probe", "probe_past", "linux_overlay_conversions", "ticking_underlying_clock_ops"]);
     if let Some(path) = replay {
         let v: serde_json::Value = serde_json::from_str(&std::fs::read_to_string(path).unwrap()).unwrap();
         let case: Case = serde_json::from_value(v["case"].clone()).unwrap();
@@ -442,6 +528,7 @@ pub fn run(rep: &mut Report, tier: &str, seed: u64, shard: (u32, u32), replay: O
     let mut rng = StdRng::seed_from_u64(seed ^ 0xc18 ^ ((shard.0 as u64) << 40));
     for k in 0..if tier == "thorough" { 200 } else { 20 } {
         linux_overlay(rep, seed.wrapping_add(k));
+        ticking_overlay(rep, seed.wrapping_add(1000 + k));
     }
     if shard.0 == 0 {
         // enumerated pairs / triples over lattice values
